@@ -89,3 +89,31 @@ Lemma cadd_assoc a b c : cadd a (cadd b c) = cadd (cadd a b) c.
 Proof. unfold cadd. simpl. f_equal; lia. Qed.
 Lemma cadd_0_l a : cadd czero a = a.
 Proof. destruct a. reflexivity. Qed.
+
+(* ---- large-index cases (Ndof > 46340: row*Ndof+col exceeds 2^31, Ndof^2 may exceed 2^32) ----------
+   The model's indices are unbounded Z, the implementation's are fixed-width integers: these cases
+   validate the "no index overflow" assumption of the theorems.  To avoid 50k-long indptr literals the
+   comparison is on the coordinate triples: by C03_Csr.csr_get_key_sum the matrix denoted by the CSR
+   is the association list  combine canon data  (canon = sorted distinct keys row*ncol+col), so slot s
+   holds (canon[s] / ncol, canon[s] mod ncol, data[s]); inv is compared as well. *)
+Definition big_model (isMatrix : bool) (Ndof dof_n : Z) (gs : list group) (data : list Z)
+  : list (list Z) :=
+  let rc := rows_cols dof_n isMatrix gs in
+  let ncol := if isMatrix then Ndof else 1 in
+  let lins := map (lin ncol) (combine (fst rc) (snd rc)) in
+  let canon := usort lins in
+  let inv := map (count_lt canon) lins in
+  [map (fun l => l / ncol) canon; map (fun l => l mod ncol) canon;
+   bincount Z Z.add 0 inv data (length canon); map Z.of_nat inv].
+
+Definition big_check (isMatrix : bool) (Ndof dof_n : Z) (gs : list group) (data : list Z)
+           (impl : list (list Z)) : bool :=
+  zll_eqb (big_model isMatrix Ndof dof_n gs data) impl.
+
+Lemma big_model_is_the_csr_map isMatrix Ndof dof_n gs data :
+  let rc := rows_cols dof_n isMatrix gs in
+  let m := get_csr_map isMatrix Ndof (fst rc) (snd rc) in
+  nth 2 (big_model isMatrix Ndof dof_n gs data) [] = c_data Z (assemble_with Z Z.add 0 m data) /\
+  nth 1 (big_model isMatrix Ndof dof_n gs data) [] = m_indices m /\
+  nth 3 (big_model isMatrix Ndof dof_n gs data) [] = map Z.of_nat (m_inv m).
+Proof. simpl. repeat split; reflexivity. Qed.
